@@ -43,6 +43,9 @@ func treeOpts(c Case) htmltree.Options {
 	return htmltree.Options{KeepComments: c.Opts.HTMLKeepComments, KeepSpecialComments: c.Opts.HTMLKeepSpecial || c.Opts.HTMLKeepCondComments, KeepDefaultAttrVals: c.Opts.HTMLKeepDefaultAttrs, Fragment: c.Fragment, RawEqual: true}
 }
 
+var reInjectText = regexp.MustCompile(`(?i)</(p|div|li|b|i|span|td|h1|em|a)>`)
+var reInjectRaw = regexp.MustCompile(`(?i)<(script|style|textarea)(?:\s[^>]*)?>`)
+
 var reScriptText = regexp.MustCompile(`(?is)<script[^>]*>(.*?)</script`)
 
 func check(c Case) (out string, err error) {
@@ -109,6 +112,24 @@ func TestCampaignGenerated(t *testing.T) {
 		if e := htmltree.Compare(d.Explicit, d.Src, strict); e != nil {
 			hx.C.Skip("generated-serialisation-not-conforming")
 			return
+		}
+		if rapid.IntRange(0, 5).Draw(t, "templates") == 0 {
+			// template code (Go template delimiters) in text and in raw text: kept as it is, the text around it is
+			// minified like any other, raw text that holds it is not touched at all
+			c.Opts.HTMLTemplateDelims = [2]string{"{{", "}}"}
+			injected := false
+			if loc := reInjectText.FindStringIndex(c.Src); loc != nil && rapid.Bool().Draw(t, "tmpltext") {
+				c.Src = c.Src[:loc[0]] + rapid.SampledFrom([]string{" {{ .X }} ", "{{.X}}", " {{ if .A }} b {{ end }}", "  {{ .X }}"}).Draw(t, "tmpltextv") + c.Src[loc[0]:]
+				injected = true
+			}
+			if m := reInjectRaw.FindStringSubmatchIndex(c.Src); m != nil && rapid.Bool().Draw(t, "tmplraw") {
+				snippet := map[string]string{"script": "var ts = \"a   b &amp; {{ .X }}\";", "style": "a{content:\"x   y {{ .X }}\"}", "textarea": "  t\n\n   {{ .X }}  &amp;lt; "}[strings.ToLower(c.Src[m[2]:m[3]])]
+				c.Src = c.Src[:m[1]] + snippet + c.Src[m[1]:]
+				injected = true
+			}
+			if injected {
+				g.Feats["template-code"]++
+			}
 		}
 		out, err := check(c)
 		nt, cls := nontrivial(c.Src, out)
